@@ -7,7 +7,7 @@
 
    zlib.decompressobj() is a streaming transducer given by Section variables:
      dinit, dstep st chunk = (st', output), dflush st, derr st' (decompress raised zlib.error)
-   bytes.decode() is the Section variable [decode].
+   bytes.decode() is the Section variable [decode] (None = UnicodeDecodeError).
    Executable definitions only; proofs are in ReaderProofs.v. *)
 From Coq Require Import List NArith Bool.
 From MV Require Import Base.PyStr InvLoad.Basics.
@@ -21,7 +21,11 @@ Variable dinit : dstate.
 Variable dstep : dstate -> bytes -> dstate * bytes.
 Variable dflush : dstate -> bytes.
 Variable derr : dstate -> bool.
-Variable decode : bytes -> ires str.
+Variable decode : bytes -> option str.          (* None = UnicodeDecodeError *)
+
+(* b.decode() *)
+Definition dec (b : bytes) : ires str :=
+  match decode b with Some s => IOk s | None => IRaise UnicodeDecodeErr end.
 
 Record reader : Type := { stream : list bytes; buffer : bytes; eof : bool }.
 
@@ -65,10 +69,10 @@ Definition readline (r : reader) : ires (str * reader) :=
   dob r1 <- readline_loop (readline_fuel r) r;
   match find_nl (buffer r1) with
   | Some pos =>
-      dob line <- decode (firstn pos (buffer r1));
+      dob line <- dec (firstn pos (buffer r1));
       IOk (line, set_buffer r1 (skipn (S pos) (buffer r1)))
   | None =>
-      dob line <- decode (buffer r1);
+      dob line <- dec (buffer r1);
       IOk (line, set_buffer r1 [])
   end.
 
@@ -120,7 +124,7 @@ Fixpoint rcl_inner (fuel : nat) (buf : bytes) : lseq * bytes :=
       match fuel with
       | O => (([], Some OutOfFuelErr), buf)
       | S f =>
-          match decode (firstn pos buf) with
+          match dec (firstn pos buf) with
           | IRaise e => (([], Some e), buf)
           | IOk line =>
               let (q, rest) := rcl_inner f (skipn (S pos) buf) in (lseq_cons line q, rest)
@@ -139,7 +143,7 @@ Fixpoint rcl_loop (chunks : list bytes) (ce : option iexn) (buf : bytes) : lseq 
       | Some e => ([], Some e)
       | None =>
           if is_nil buf then ([], None)
-          else match decode buf with
+          else match dec buf with
                | IOk line => ([line], None)
                | IRaise e => ([], Some e)
                end
